@@ -31,6 +31,7 @@ def main():
     ap.add_argument("ids", nargs="*")
     ap.add_argument("--verify-demo", action="store_true")
     ap.add_argument("--tier", default="quick")
+    ap.add_argument("--demo-only", action="store_true", help="only (re)run the demonstrations, keep the recorded check results")
     a = ap.parse_args()
     sdir = V / "seeded"
     ids = a.ids or sorted(p.name for p in sdir.iterdir() if (p / "patch.diff").exists())
@@ -46,7 +47,12 @@ def main():
             continue
         try:
             entry = {"property": meta["property"], "tier": a.tier, "repo_head": sh("git -C /repo rev-parse --short HEAD").stdout.strip()}
-            if a.verify_demo and (d / "demo.py").exists():
+            if not (a.verify_demo or a.demo_only):   # keep the demonstration results recorded when the change was stored
+                prev = (json.loads(resf.read_text()) if resf.exists() else {}).get(sid, {})
+                for k in ("demo_without_patch_exit", "demo_with_patch_exit", "demo_with_patch_tail"):
+                    if k in prev:
+                        entry[k] = prev[k]
+            if (a.verify_demo or a.demo_only) and (d / "demo.py").exists():
                 env = dict(os.environ, PYTHONPATH=pypath(wt), PYTHONDONTWRITEBYTECODE="1")
                 r0 = subprocess.run(["/venv/bin/python", str(d / "demo.py")], capture_output=True, text=True, env=env, timeout=900)
                 entry["demo_without_patch_exit"] = r0.returncode
@@ -56,10 +62,23 @@ def main():
                 results[sid] = entry
                 print(sid, "PATCH DOES NOT APPLY", ap_.stderr[-200:])
                 continue
-            if a.verify_demo and (d / "demo.py").exists():
+            if (a.verify_demo or a.demo_only) and (d / "demo.py").exists():
                 r1 = subprocess.run(["/venv/bin/python", str(d / "demo.py")], capture_output=True, text=True, env=env, timeout=900)
                 entry["demo_with_patch_exit"] = r1.returncode
                 entry["demo_with_patch_tail"] = (r1.stdout + r1.stderr)[-300:]
+            if a.demo_only:
+                import fcntl
+                with open(str(resf) + ".lock", "w") as lk:
+                    fcntl.flock(lk, fcntl.LOCK_EX)
+                    cur = json.loads(resf.read_text()) if resf.exists() else {}
+                    e0 = cur.get(sid, {})
+                    for k in ("demo_without_patch_exit", "demo_with_patch_exit", "demo_with_patch_tail"):
+                        if k in entry:
+                            e0[k] = entry[k]
+                    cur[sid] = e0
+                    resf.write_text(json.dumps(cur, indent=1, sort_keys=True) + "\n")
+                print(sid, "demo", entry.get("demo_without_patch_exit"), entry.get("demo_with_patch_exit"), flush=True)
+                continue
             entry["checks"] = {}
             for pid in [meta["property"], *meta.get("also_run", [])]:
                 t = time.time()
